@@ -100,6 +100,10 @@ impl<T, const D: usize> Drop for DecyclerGuard<'_, T, D> {
     }
 }
 
+#[cfg(googlefonts_fontations_verif)]
+#[path = "/verif/harness/incrate/decycler.rs"]
+mod verif_harness;
+
 #[cfg(test)]
 mod tests {
     use super::*;
